@@ -329,8 +329,9 @@ def swapRanges (a : Addr) : Nat → Addr → M α Unit
 def rawBuf (n : Nat) : List (Slot α) := List.replicate n .raw
 
 def allocBlock (n : Nat) (id : Nat) : M α Unit := do
+  bumpEv fun e => { e with al := e.al + 1 }      -- the call is counted even when it throws
   tick .badAlloc
-  modify fun m => { m with blocks := ⟨id, n, rawBuf n⟩ :: m.blocks, ev := { m.ev with al := m.ev.al + 1 } }
+  modify fun m => { m with blocks := ⟨id, n, rawBuf n⟩ :: m.blocks }
 
 def findBlock (id : Nat) : M α (Option (Block α)) := do
   return (← get).blocks.find? (·.id == id)
